@@ -137,8 +137,15 @@ RootRw(u) ==
                                       Lam1(z, [u EXCEPT !.a[1] = Attr(Name(z), u.a[1].s)])>>)>>)} ELSE {})
 
 (* context closure *)
+(* The function position of a method call  obj.m(args)  is not an attribute access of its own (Sem has no   *)
+(* first-class bound methods, and the implementation handles  First(seq).m(args)  as one node): the attribute *)
+(* rules apply inside obj only.                                                                               *)
 RECURSIVE Rw(_)
-Rw(u) == RootRw(u) \cup UNION {{[u EXCEPT !.a[i] = c] : c \in Rw(u.a[i])} : i \in 1..Len(u.a)}
+Rw(u) == RootRw(u) \cup
+         UNION {{[u EXCEPT !.a[i] = c] :
+                    c \in (IF u.k = "call" /\ i = 1 /\ u.a[1].k = "attr"
+                           THEN {[u.a[1] EXCEPT !.a[1] = d] : d \in Rw(u.a[1].a[1])}
+                           ELSE Rw(u.a[i]))} : i \in 1..Len(u.a)}
 
 ---------------------------------------------------------------------------
 Init == t \in Roots /\ orig = t /\ phase = "derive"
